@@ -264,9 +264,9 @@ def mk_filler(rng, n, kind, decoy_keys=()):
     return b
 
 
-def pe_image(rng, size, arch=None) -> bytearray:
+def pe_image(rng, size, arch=None, lf=None) -> bytearray:
     """minimal PE-like image: DOS header, e_lfanew, PE signature, file header (machine), optional header magic, sections"""
-    lf = rng.choice([64, 128, 0x80, 0xF8])
+    lf = lf if lf is not None else rng.choice([64, 128, 0x80, 0xF8])
     machine = arch or rng.choice([0x8664, 0x14C])
     buf = bytearray(rng.choice(b"\x00\x90\x11\x22") for _ in range(max(size, lf + 512)))
     buf[0:2] = b"MZ"
@@ -344,7 +344,7 @@ def safe_tail(key: bytes, off: int, tail: str) -> str:
 
 
 def build_case(rng, *, key: bytes, keys, ak: bool, container: str, off: int, total: int, filler: str, B: int,
-               blocksize=PATCH, cut=False, decoys=(), tail="zero", nset=None, stub_decoy=None, stublen=None):
+               blocksize=PATCH, cut=False, decoys=(), tail="zero", nset=None, stub_decoy=None, stublen=None, prepend=0, lf=None):
     """One payload.  Returns (data, views) where views is the ground truth search order [(xorencoded, bytes)].
 
     container: raw | pe | xs (XorEncoded stage, size dword correct) | xm (marker only) | xsm (both) | xbad (neither: not detected)
@@ -355,10 +355,14 @@ def build_case(rng, *, key: bytes, keys, ak: bool, container: str, off: int, tot
     if container in ("raw",):
         view = mk_filler(rng, total, filler, decoy_keys)
     else:
-        view = pe_image(rng, total)
+        view = pe_image(rng, total, lf=lf)
+        hdr = 700 if lf is None else lf + 300
         if filler != "pe":
-            body = mk_filler(rng, max(0, len(view) - 700), filler, decoy_keys)
-            view[700:] = body
+            body = mk_filler(rng, max(0, len(view) - hdr), filler, decoy_keys)
+            view[hdr:] = body
+        if prepend:
+            # stage prepend inside the (decoded) view: bytes that cannot start a DOS header candidate (every e_lfanew dword negative)
+            view = bytearray(rng.choice(b"\x90\xcc\xf0\xfe") for _ in range(prepend)) + view
     if container == "raw" and filler in ("random", "decoy", "runs"):
         no_marker(view)
     scrub(view, tk, rng)
@@ -726,6 +730,19 @@ def gen(tier, rng, shard, nshards):
                     else:
                         continue
                 yield emit(entry(), B, False, None, data, views)
+
+        # ---- 7e. XorEncoded stages whose decoded view carries a stage prepend in front of the image and a large e_lfanew: the MZ
+        #          check of the detector must find the image anywhere below 1024 (DOS header, then the file header e_lfanew further)
+        for pre, lf in ([(0, 1000), (8, 512), (300, 256), (809, 256), (1000, 64), (1023, 1000), (900, 1000), (1015, 128)] if thorough
+                        else [(809, 256), (1000, 64), (1023, 1000), (300, 512)]):
+            if not mine():
+                continue
+            key = rng.choice(DEFAULT_KEYS)
+            off = pre + lf + 400
+            data, views = build_case(rng, key=key, keys=None, ak=False, container=rng.choice(["xs", "xsm"]), off=off, total=lf + 400 + 128 + 40,
+                                     filler=rng.choice(["zero", "random"]), B=rng.choice([8192, 256]), blocksize=128, prepend=pre, lf=lf,
+                                     stublen=rng.choice([0, 5, 64]))
+            yield emit(entry(), 8192, False, None, data, views)
 
     # ---- 8. random mix
     for _ in range((600 if thorough else 60) // nshards):
